@@ -2,7 +2,7 @@
 From Coq Require Import List Arith ZArith NArith Bool Sorted Permutation.
 From Coq.Strings Require Import Byte.
 Import ListNotations.
-From SV Require Import Text C09_Model C09_Lemmas C09_Extract C09_Record C09_Box C09_Unterm C09_Scan C09_Parse C09_Get C09_GetAll C09_Header C09_Read C09_Store C09_Sort C09_Hist.
+From SV Require Import Text C09_Model C09_Lemmas C09_Extract C09_Record C09_Box C09_Unterm C09_Scan C09_Parse C09_Get C09_GetAll C09_Header C09_Read C09_Store C09_Sort C09_Layout C09_Hist.
 
 (* P0 (DESIGN appendix A): for every line width, newline sequence and residue string, stripping the newline bytes from the bytes
    [off i, off j) of the wrapped text, off x = x + (x / w) * |nl| (fastaindex.py:118,132), gives s[i:j] *)
@@ -411,3 +411,51 @@ Example C09_hist_witness : forall mode, mode = MODE_BINARY \/ mode = MODE_DB ->
   /\ lookup_entry mode (fst (run_ops mode ex_hs (benv ex_env) (init_state (bs "{dbpath}/"%bs)) [OAdd [1] false; OAdd [0] true; OReopen]))
                   (bs "B"%bs) = Ok (0, 4, 10).
 Proof. exact hist_witness. Qed.
+
+(* ---------------------------------------------------------------------- byte layouts *)
+
+(* F15 exactly: _pack/_unpack round-trip iff file number and line length are below 65536 (any offset) *)
+Theorem C09_pack_iff : forall fn ll st : N,
+  (exists b, pack fn ll st = Some b /\ unpack b = (fn, ll, st)) <-> (fn < 65536 /\ ll < 65536)%N.
+Proof. exact pack_iff. Qed.
+Print Assumptions C09_pack_iff.
+
+(* ... and the dbm store hands a record back unchanged in exactly that case, raising OverflowError otherwise *)
+Theorem C09_stored_db_iff : forall e : entry,
+  (stored MODE_DB e = Ok (e_fn e, e_linelen e, e_start e) <-> (N.of_nat (e_fn e) < 65536 /\ N.of_nat (e_linelen e) < 65536)%N)
+  /\ (stored MODE_DB e = Err (bs "OverflowError"%bs) <-> (65536 <= N.of_nat (e_fn e) \/ 65536 <= N.of_nat (e_linelen e))%N).
+Proof. exact stored_db_iff. Qed.
+Print Assumptions C09_stored_db_iff.
+
+(* one fixed-width record of the binary search file: id left-justified with blanks, three big-endian integers; any column
+   widths that fit the record (fits), any id without blanks: the encoding has the record size and decodes to the record *)
+Theorem C09_record_roundtrip : forall (sz : sizes) (e : entry), fits sz e -> no_byte SP (e_id e) = true ->
+  exists b, enc_rec sz e = Some b /\ length b = recsize sz /\ dec_rec sz b = e.
+Proof. exact record_roundtrip. Qed.
+Print Assumptions C09_record_roundtrip.
+
+(* the whole index file: for any header and any records (ids without blanks, not empty) the bytes write() produces --
+   magic, the two offsets, header, field table, sorted fixed-width records with the column widths write() computes -- parse
+   back: read_header() gives the header, read() the sorted records; whenever offsets and widths fit their two-byte fields *)
+Theorem C09_file_roundtrip : forall (hdr : str) (data : list entry),
+  (N.of_nat (length hdr) + 22 < 65536)%N -> sizes_small (bsf_sizes data) ->
+  Forall (fun e => no_byte SP (e_id e) = true /\ e_id e <> []) data ->
+  exists f, bsf_file hdr data = Some f /\ bsf_parse f = Some (hdr, bsf_sizes data, sort_e data).
+Proof. exact file_roundtrip. Qed.
+Print Assumptions C09_file_roundtrip.
+
+(* reopening at the byte level for every state a history can reach (inv: C09_hist_invariant): the index file parses back to
+   exactly the stored header and the records of the state *)
+Theorem C09_hist_file_roundtrip : forall mode hs path (env : list (str * gfile)) s h recs,
+  Forall (fun nf => wf_gfile mode (snd nf)) env -> inv mode path env s -> st_bin s = Some (h, recs) ->
+  (N.of_nat (length (hs ++ h)) + 22 < 65536)%N -> sizes_small (bsf_sizes recs) ->
+  exists f, bsf_file (hs ++ h) recs = Some f /\ bsf_parse f = Some (hs ++ h, bsf_sizes recs, recs).
+Proof. exact hist_file_roundtrip. Qed.
+Print Assumptions C09_hist_file_roundtrip.
+
+Example C09_layout_witness :
+  let data := [Entry (bs "b"%bs) 0 0 300; Entry (bs "ab"%bs) 1 4000 0; Entry (bs "a"%bs) 0 4 20] in
+  (N.of_nat (length ex_hs) + 22 < 65536)%N /\ sizes_small (bsf_sizes data) /\ bsf_sizes data = (2, 1, 2, 2)
+  /\ Forall (fun e => no_byte SP (e_id e) = true /\ e_id e <> []) data
+  /\ option_map (@length byte) (bsf_file ex_hs data) = Some (8 + length ex_hs + 14 + 3 * 7).
+Proof. exact layout_witness. Qed.
